@@ -48,14 +48,14 @@ def main():
                 try:
                     rc, out = sh("PYTHONPATH=%s/src /venv/bin/python -m pytest tests -q -p no:cacheprovider --deselect tests/test_e2e.py 2>&1 | tail -1" % REPO, cwd=REPO)
                     r["suite"] = out.strip()
-                    rc, out = sh("PYTHONPATH=%s/src /venv/bin/python %s/demo.py" % (REPO, md), cwd=REPO, timeout=600)
+                    rc, out = sh("PYTHONPATH=%s/src:%s/tests /venv/bin/python %s/demo.py" % (REPO, REPO, md), cwd=REPO, timeout=600)
                     r["demo_changed"] = rc
                     rc, out = sh("./check %s --tier quick" % pid, cwd=ROOT)
                     r["check_exit"] = rc
                     r["no_failing_input"] = "no-failing-input-found" in out
                 finally:
                     sh("git checkout -- .", cwd=REPO)
-                rc, out = sh("PYTHONPATH=%s/src /venv/bin/python %s/demo.py" % (REPO, md), cwd=REPO, timeout=600)
+                rc, out = sh("PYTHONPATH=%s/src:%s/tests /venv/bin/python %s/demo.py" % (REPO, REPO, md), cwd=REPO, timeout=600)
                 r["demo_clean"] = rc
             res[pid + "/" + k] = r
             if "--record" in sys.argv:
